@@ -224,7 +224,7 @@ func execL(f []string) string {
 		if mode == 0 {
 			return runL(c, func(l, r []int) []slice.Edit[int] { return slice.EditScript(l, r) }, f)
 		}
-		return runL(c, func(l, r []int) []slice.Edit[int] { return slice.VerifEditScriptFunc(eqFor(mode), l, r) }, f)
+		return runL(c, func(l, r []int) []slice.Edit[int] { return slice.VerifEditScriptFunc(hookEq(eqFor(mode)), l, r) }, f)
 	case "f":
 		if mode != -5 {
 			return "?"
@@ -291,8 +291,16 @@ func execL(f []string) string {
 				return c
 			}}
 		return runL(c, func(l, r []lrec) []slice.Edit[lrec] {
-			return slice.VerifEditScriptFunc(func(a, b lrec) bool { return a.K == b.K }, l, r)
+			return slice.VerifEditScriptFunc(func(a, b lrec) bool {
+				if len(armed) > 0 {
+					nestedHook()
+				}
+				return a.K == b.K
+			}, l, r)
 		}, f)
+	}
+	if out, ok := execL5(mode, f[2], f); ok { // the element types of round 5 (round5.go)
+		return out
 	}
 	return "?"
 }
